@@ -233,7 +233,7 @@ class NB:
         axis = d(st.sampled_from([len(shape) - 1, len(shape) - 1, 1 if len(shape) > 2 else len(shape) - 1, 2 if len(shape) > 3 else len(shape) - 1]))
         if other is not None and self.info(other)["shape"][:axis] + self.info(other)["shape"][axis + 1:] != shape[:axis] + shape[axis + 1:]:
             other = None
-        exact = self.profile == "exact"  # the int8 reference kernel demands identical quantisation; C01's exact class keeps to it
+        exact = self.profile in ("exact", "slices")  # the int8 reference kernel demands identical quantisation; C01's exact class keeps to it
         if exact and other is not None and (self.info(other)["scale"], self.info(other)["zp"]) != (X["scale"], X["zp"]):
             other = None
         if other is None:
@@ -442,6 +442,9 @@ def network(profile="exact", max_ops=6, dtypes=("int8", "int8", "int8", "uint8",
             n_ops = draw(st.integers(2, max_ops))
         if profile == "cascade":  # chains of spatial operators on tall planes: what the scheduler cascades and stripes
             menu = ["conv", "conv", "conv", "dw", "dw", "maxpool", "add_const", "relu", "add", "avgpool_valid"]
+            n_ops = draw(st.integers(2, max_ops))
+        if profile == "slices":  # exact-class operators fed by SLICE/STRIDED_SLICE/SPLIT/CONCATENATION/PAD/RESHAPE: read and write offsets on every kind of consumer
+            menu = ["sslice", "sslice", "split", "concat", "pad", "reshape", "conv", "conv", "dw", "maxpool", "avgpool_valid", "relu", "relu6", "add", "mul", "fc", "padconv", "quantize", "maximum"]
             n_ops = draw(st.integers(2, max_ops))
         if profile == "wide":
             menu += APPROX_TAIL_OPS + CPU_OPS
